@@ -39,4 +39,612 @@ def ForceDfsStatement : Prop :=
         force sem none (n + cost) ((evalThunk t ⟨s, i⟩).1 :: stack) (evalThunk t ⟨s, i⟩).2
           = after sig stack ⟨s', i + di⟩ n
 
+
+/-! ## Proofs
+
+### one iteration of `force` on each shape of promise -/
+
+theorem sem_evalThunk (n : Nat) (t : PT) (m : M St) : sem.evalThunk n t m = some (evalThunk t m) := rfl
+
+theorem step_empty (n : Nat) (p : Pr) (stack : List Pr) (s : St) (i : Nat)
+    (hd : p.delayed = []) (he : p.err = none) (ho : p.ok = false) :
+    force sem none (n + 1) (p :: stack) ⟨s, i⟩ = force sem none n stack ⟨s, i + 1⟩ := by
+  simp [force, isCancelled, hd, he, ho]
+
+theorem step_ok (n : Nat) (p : Pr) (stack : List Pr) (s : St) (i : Nat)
+    (hd : p.delayed = []) (he : p.err = none) (ho : p.ok = true) :
+    force sem none (n + 1) (p :: stack) ⟨s, i⟩ = some (.yes, ⟨s, i + 1⟩) := by
+  simp [force, isCancelled, hd, he, ho]
+
+theorem step_err (n : Nat) (p : Pr) (e : Nat) (stack : List Pr) (s : St) (i : Nat)
+    (hd : p.delayed = []) (he : p.err = some e) :
+    force sem none (n + 1) (p :: stack) ⟨s, i⟩ = after (.raised e none) stack ⟨s, i + 1⟩ n := by
+  simp only [force, isCancelled, hd, he, after, cutOpt]
+  rcases recoverStack sem e stack _ with ⟨_ | st', m'⟩ <;> rfl
+
+theorem step_cut (n : Nat) (k : PT) (c : Nat) (stack : List Pr) (s : St) (i : Nat) :
+    force sem none (n + 1) ({ delayed := [k], cutParent := some c } :: stack) ⟨s, i⟩ =
+      force sem none n ((evalThunk k ⟨s, i + 1⟩).1 :: { } :: cutStack c stack) (evalThunk k ⟨s, i + 1⟩).2 := by
+  simp [force, isCancelled, sem_evalThunk, afterChild]
+
+theorem step_catch (n : Nat) (k : PT) (h : Handler) (stack : List Pr) (s : St) (i : Nat) :
+    force sem none (n + 1) ({ delayed := [k], recover := some h } :: stack) ⟨s, i⟩ =
+      force sem none n ((evalThunk k ⟨s, i + 1⟩).1 :: { recover := some h } :: stack) (evalThunk k ⟨s, i + 1⟩).2 := by
+  simp [force, isCancelled, sem_evalThunk, afterChild]
+
+theorem step_rep (n : Nat) (k : PT) (stack : List Pr) (s : St) (i : Nat) :
+    force sem none (n + 1) ({ delayed := [k], rep := true } :: stack) ⟨s, i⟩ =
+      force sem none n ((evalThunk k ⟨s, i + 1⟩).1 :: { delayed := [k], rep := true } :: stack) (evalThunk k ⟨s, i + 1⟩).2 := by
+  simp [force, isCancelled, sem_evalThunk, afterChild]
+
+theorem step_alts (n : Nat) (id : Nat) (t : PT) (ts : List PT) (stack : List Pr) (s : St) (i : Nat) :
+    force sem none (n + 1) ({ id := id, delayed := t :: ts } :: stack) ⟨s, i⟩ =
+      force sem none n ((evalThunk t ⟨s, i + 1⟩).1 :: { id := id, delayed := ts } :: stack) (evalThunk t ⟨s, i + 1⟩).2 := by
+  simp [force, isCancelled, sem_evalThunk, afterChild]
+
+
+/-! ### `ids`, `popUntil`, `cutStack` -/
+
+theorem ids_nil : ids [] = [] := rfl
+
+theorem ids_cons_zero (p : Pr) (st : List Pr) (h : p.id = 0) : ids (p :: st) = ids st := by
+  simp [ids, h]
+
+theorem ids_cons_pos (p : Pr) (st : List Pr) (h : p.id ≠ 0) : ids (p :: st) = p.id :: ids st := by
+  simp [ids, h]
+
+theorem zero_not_mem_ids : ∀ st : List Pr, 0 ∉ ids st
+  | [] => by simp [ids]
+  | p :: st => by
+    by_cases h : p.id = 0
+    · rw [ids_cons_zero p st h]; exact zero_not_mem_ids st
+    · rw [ids_cons_pos p st h]
+      intro hm
+      rcases List.mem_cons.1 hm with h0 | h0
+      · exact h h0.symm
+      · exact zero_not_mem_ids st h0
+
+theorem cutStack_skip (c : Nat) (p : Pr) (st : List Pr) (h : p.id ≠ c ∨ c = 0) :
+    cutStack c (p :: st) = cutStack c st := by
+  unfold cutStack
+  by_cases hc : c = 0
+  · simp [hc]
+  · rcases h with h | h
+    · simp [hc, popUntil, h]
+    · exact absurd h hc
+
+theorem cutStack_hit (c : Nat) (p : Pr) (st : List Pr) (h : p.id = c) (hc : c ≠ 0) :
+    cutStack c (p :: st) = marker c :: st := by
+  simp [cutStack, hc, popUntil, h]
+
+/-- after the cut step the identified frames are those from the cut parent downwards -/
+theorem ids_cutStack (c : Nat) : ∀ st : List Pr, c ∈ ids st →
+    ids (cutStack c st) = (ids st).dropWhile (· ≠ c)
+  | [], h => by simp [ids] at h
+  | p :: st, h => by
+    have hc : c ≠ 0 := fun h0 => zero_not_mem_ids (p :: st) (h0 ▸ h)
+    by_cases hp : p.id = 0
+    · rw [ids_cons_zero p st hp] at h ⊢
+      rw [cutStack_skip c p st (Or.inl (by omega))]
+      exact ids_cutStack c st h
+    · rw [ids_cons_pos p st hp] at h ⊢
+      by_cases hpc : p.id = c
+      · rw [cutStack_hit c p st hpc hc, ids_cons_pos _ _ (by simpa [marker] using hc)]
+        simp [marker, hpc]
+      · rw [cutStack_skip c p st (Or.inl hpc)]
+        have : c ∈ ids st := by
+          rcases List.mem_cons.1 h with h0 | h0
+          · exact absurd h0.symm hpc
+          · exact h0
+        rw [ids_cutStack c st this]
+        simp [List.dropWhile, hpc]
+
+/-- a second cut, to a parent below the first one, ends where it would have ended without the first -/
+theorem popUntil_popUntil (c c' : Nat) : ∀ st : List Pr, (ids st).Nodup →
+    c' ∈ (ids st).dropWhile (· ≠ c) → c' ≠ c → popUntil c' (popUntil c st) = popUntil c' st
+  | [], _, h, _ => by simp [ids] at h
+  | p :: st, hn, h, hne => by
+    have hc' : c' ≠ 0 := fun h0 =>
+      zero_not_mem_ids (p :: st) (h0 ▸ (List.dropWhile_sublist _).subset h)
+    by_cases hp : p.id = 0
+    · rw [ids_cons_zero p st hp] at h hn
+      by_cases hpc : p.id = c
+      · -- c = 0: nothing below
+        have : c' ∈ ids st := (List.dropWhile_sublist _).subset h
+        have hpc' : p.id ≠ c' := by omega
+        show popUntil c' (if p.id = c then st else popUntil c st) = (if p.id = c' then st else popUntil c' st)
+        rw [if_pos hpc, if_neg hpc']
+      · have hpc' : p.id ≠ c' := by omega
+        simp only [popUntil, hpc, hpc', if_false]
+        exact popUntil_popUntil c c' st hn h hne
+    · rw [ids_cons_pos p st hp] at h hn
+      have hnd := List.nodup_cons.1 hn
+      by_cases hpc : p.id = c
+      · simp only [List.dropWhile, hpc, ne_eq, not_true_eq_false, decide_false] at h
+        have hm : c' ∈ ids st := by
+          rcases List.mem_cons.1 h with h0 | h0
+          · exact absurd h0 hne
+          · exact h0
+        have hpc' : p.id ≠ c' := fun h0 => hnd.1 (h0 ▸ hm)
+        show popUntil c' (if p.id = c then st else popUntil c st) = (if p.id = c' then st else popUntil c' st)
+        rw [if_pos hpc, if_neg hpc']
+      · simp only [List.dropWhile, ne_eq, hpc, not_false_eq_true, decide_true] at h
+        have hm : c' ∈ ids st := (List.dropWhile_sublist _).subset h
+        have hpc' : p.id ≠ c' := fun h0 => hnd.1 (h0 ▸ hm)
+        simp only [popUntil, hpc, hpc', if_false]
+        exact popUntil_popUntil c c' st hnd.2 h hne
+
+
+/-! ### the cut parent carried by a signal is live -/
+
+/-- the cut parent carried by a signal is live -/
+def sigIn : Sig → List Nat → Prop
+  | .exhausted (some c), live => c ∈ live
+  | .raised _ (some c), live => c ∈ live
+  | _, _ => True
+
+theorem sigIn_mono {sig : Sig} {l l' : List Nat} (h : ∀ x, x ∈ l → x ∈ l') : sigIn sig l → sigIn sig l' := by
+  cases sig with
+  | found => exact id
+  | illScoped => exact id
+  | exhausted co => cases co with
+    | none => exact id
+    | some c => exact h c
+  | raised e co => cases co with
+    | none => exact id
+    | some c => exact h c
+
+theorem sigIn_afterCut {c : Nat} {r : Sig} {live : List Nat} (hc : c ∈ live) (h : sigIn r live) :
+    sigIn (afterCut c r) live := by
+  cases r with
+  | found => exact h
+  | illScoped => exact h
+  | exhausted co => cases co with
+    | none => exact hc
+    | some c => exact h
+  | raised e co => cases co with
+    | none => exact hc
+    | some c => exact h
+
+theorem sigIn_absorb {id : Nat} {r : Sig} {live : List Nat} (h : sigIn r (id :: live)) :
+    sigIn (absorb id r) live := by
+  cases r with
+  | found => trivial
+  | illScoped => trivial
+  | exhausted co => cases co with
+    | none => trivial
+    | some c =>
+      simp only [absorb]
+      split
+      · trivial
+      · rename_i hne
+        rcases List.mem_cons.1 h with h0 | h0
+        · exact absurd h0 hne
+        · exact h0
+  | raised e co => cases co with
+    | none => trivial
+    | some c =>
+      simp only [absorb]
+      split
+      · trivial
+      · rename_i hne
+        rcases List.mem_cons.1 h with h0 | h0
+        · exact absurd h0 hne
+        · exact h0
+
+theorem sigIn_both : ∀ k : Nat,
+    (∀ t live s sig s', dfs k t live s = some (sig, s') → sigIn sig live) ∧
+    (∀ id ts live0 s sig s', dfsAlts k id ts (id :: live0) s = some (sig, s') → sigIn sig live0) := by
+  intro k
+  induction k with
+  | zero => exact ⟨fun _ _ _ _ _ h => by simp [dfs] at h, fun _ _ _ _ _ _ h => by simp [dfsAlts] at h⟩
+  | succ k ih =>
+    obtain ⟨ihD, ihA⟩ := ih
+    constructor
+    · intro t live s sig s' h
+      cases t with
+      | ok => simp only [dfs, Option.some.injEq, Prod.mk.injEq] at h; obtain ⟨rfl, rfl⟩ := h; trivial
+      | fail => simp only [dfs, Option.some.injEq, Prod.mk.injEq] at h; obtain ⟨rfl, rfl⟩ := h; trivial
+      | err e => simp only [dfs, Option.some.injEq, Prod.mk.injEq] at h; obtain ⟨rfl, rfl⟩ := h; trivial
+      | log x t => simp only [dfs] at h; exact ihD _ _ _ _ _ h
+      | set f b t => simp only [dfs] at h; exact ihD _ _ _ _ _ h
+      | delay id alts =>
+        simp only [dfs] at h
+        split at h
+        · simp only [Option.some.injEq, Prod.mk.injEq] at h; obtain ⟨rfl, rfl⟩ := h; trivial
+        · exact ihA _ _ _ _ _ _ h
+      | cut parent t =>
+        simp only [dfs] at h
+        generalize (if s.created.contains parent = true then parent else 0) = c at h
+        split at h
+        · rename_i hc
+          split at h
+          · simp at h
+          · rename_i r s1 h1
+            simp only [Option.some.injEq, Prod.mk.injEq] at h; obtain ⟨rfl, rfl⟩ := h
+            have := ihD _ _ _ _ _ h1
+            exact sigIn_afterCut (by simpa using hc)
+              (sigIn_mono (fun x hx => (List.dropWhile_sublist _).subset hx) this)
+        · simp only [Option.some.injEq, Prod.mk.injEq] at h; obtain ⟨rfl, rfl⟩ := h; trivial
+      | catch_ flag hs t =>
+        simp only [dfs] at h
+        split at h
+        · simp at h
+        · rename_i e s1 h1
+          split at h
+          · split at h
+            · exact ihD _ _ _ _ _ h
+            · simp only [Option.some.injEq, Prod.mk.injEq] at h; obtain ⟨rfl, rfl⟩ := h; trivial
+          · simp only [Option.some.injEq, Prod.mk.injEq] at h; obtain ⟨rfl, rfl⟩ := h; trivial
+        · rename_i r hr h1
+          simp only [Option.some.injEq] at h; subst h
+          exact ihD _ _ _ _ _ h1
+      | rep t =>
+        simp only [dfs] at h
+        split at h
+        · simp at h
+        · exact ihD _ _ _ _ _ h
+        · rename_i r hr h1
+          simp only [Option.some.injEq] at h; subst h
+          exact ihD _ _ _ _ _ h1
+    · intro id ts live0 s sig s' h
+      cases ts with
+      | nil => simp only [dfsAlts, Option.some.injEq, Prod.mk.injEq] at h; obtain ⟨rfl, rfl⟩ := h; trivial
+      | cons t ts =>
+        simp only [dfsAlts] at h
+        split at h
+        · simp at h
+        · exact ihA _ _ _ _ _ _ h
+        · rename_i r s1 hr h1
+          simp only [Option.some.injEq, Prod.mk.injEq] at h; obtain ⟨rfl, rfl⟩ := h
+          exact sigIn_absorb (ihD _ _ _ _ _ h1)
+
+/-! ### how a signal passes the frames the constructs leave on the stack -/
+
+theorem after_cutsig_skip_exh (c : Nat) (p : Pr) (st : List Pr) (m : M St) (n : Nat) (h : p.id ≠ c ∨ c = 0) :
+    after (.exhausted (some c)) (p :: st) m n = after (.exhausted (some c)) st m n := by
+  simp only [after, cutOpt, cutStack_skip c p st h]
+
+theorem after_cutsig_skip_raised (e c : Nat) (p : Pr) (st : List Pr) (m : M St) (n : Nat) (h : p.id ≠ c ∨ c = 0) :
+    after (.raised e (some c)) (p :: st) m n = after (.raised e (some c)) st m n := by
+  simp only [after, cutOpt, cutStack_skip c p st h]
+
+theorem after_raised_skip (e : Nat) (p : Pr) (st : List Pr) (m : M St) (n : Nat) (h : p.recover = none) :
+    after (.raised e none) (p :: st) m n = after (.raised e none) st m n := by
+  simp only [after, cutOpt, recoverStack_no_handler sem e p st m h]
+
+theorem id0_skip (p : Pr) (c : Nat) (h : p.id = 0) : p.id ≠ c ∨ c = 0 := by omega
+
+/-- one more iteration is needed exactly when the frame itself has to be popped -/
+def extra (r : Sig) : Nat := if r = .exhausted none then 1 else 0
+
+theorem extra_of_ne {r : Sig} (h : r ≠ .exhausted none) : extra r = 0 := by simp [extra, h]
+theorem extra_exh : extra (.exhausted none) = 1 := rfl
+
+/-- a frame without identity and without handler is invisible to every signal except plain exhaustion -/
+theorem after_transparent (sig : Sig) (p : Pr) (st : List Pr) (m : M St) (n : Nat)
+    (hid : p.id = 0) (hr : p.recover = none) (hs : sig ≠ .exhausted none) :
+    after sig (p :: st) m n = after sig st m n := by
+  cases sig with
+  | found => rfl
+  | illScoped => rfl
+  | exhausted co => cases co with
+    | none => exact absurd rfl hs
+    | some c => exact after_cutsig_skip_exh c p st m n (id0_skip p c hid)
+  | raised e co => cases co with
+    | none => exact after_raised_skip e p st m n hr
+    | some c => exact after_cutsig_skip_raised e c p st m n (id0_skip p c hid)
+
+/-- an exhausted frame without identity and without handler -/
+theorem after_spent (sig : Sig) (p : Pr) (st : List Pr) (s : St) (i n : Nat)
+    (hid : p.id = 0) (hr : p.recover = none) (hd : p.delayed = []) (he : p.err = none) (ho : p.ok = false) :
+    after sig (p :: st) ⟨s, i⟩ (n + extra sig) = after sig st ⟨s, i + extra sig⟩ n := by
+  by_cases hs : sig = .exhausted none
+  · subst hs
+    rw [extra_exh]
+    exact step_empty n p st s i hd he ho
+  · rw [extra_of_ne hs]
+    exact after_transparent sig p st _ n hid hr hs
+
+/-- the exhausted frame of a catch: it only matters to an error that still looks for a handler -/
+theorem after_catch_pass (sig : Sig) (h : Handler) (st : List Pr) (s : St) (i n : Nat)
+    (hs : ∀ e, sig ≠ .raised e none) :
+    after sig ({ recover := some h } :: st) ⟨s, i⟩ (n + extra sig) = after sig st ⟨s, i + extra sig⟩ n := by
+  cases sig with
+  | found => rfl
+  | illScoped => rfl
+  | exhausted co => cases co with
+    | none =>
+      rw [extra_exh]
+      exact step_empty n ({ recover := some h } : Pr) st s i rfl rfl rfl
+    | some c =>
+      rw [extra_of_ne (by simp)]
+      exact after_cutsig_skip_exh c _ st _ n (id0_skip _ c rfl)
+  | raised e co => cases co with
+    | none => exact absurd rfl (hs e)
+    | some c =>
+      rw [extra_of_ne (by simp)]
+      exact after_cutsig_skip_raised e c _ st _ n (id0_skip _ c rfl)
+
+theorem after_catch_decline (e : Nat) (h : Handler) (st : List Pr) (m : M St) (n : Nat)
+    (hd : m.user.flag h.flag = false ∨ h.handles.find e = none) :
+    after (.raised e none) ({ recover := some h } :: st) m n = after (.raised e none) st m n := by
+  have : evalRecover h e m = (none, m) := by
+    unfold evalRecover
+    rcases hd with hd | hd
+    · simp [hd]
+    · simp [hd]
+  simp only [after, cutOpt, recoverStack, sem, this]
+
+theorem after_catch_accept (e : Nat) (h : Handler) (t : PT) (st : List Pr) (m : M St) (n : Nat)
+    (hf : m.user.flag h.flag = true) (ht : h.handles.find e = some t) :
+    after (.raised e none) ({ recover := some h } :: st) m n =
+      force sem none n ((evalThunk t m).1 :: st) (evalThunk t m).2 := by
+  have : evalRecover h e m = (some (evalThunk t m).1, (evalThunk t m).2) := by
+    unfold evalRecover
+    simp [hf, ht]
+  simp only [after, cutOpt, recoverStack, sem, this]
+
+/-- the delay frame `id` absorbs a cut whose parent it is -/
+def extraAbs (id : Nat) (r : Sig) : Nat := if r = .exhausted (some id) then 1 else 0
+
+theorem after_delay_pass (id : Nat) (ts : List PT) (sig : Sig) (st : List Pr) (s : St) (i n : Nat)
+    (hid : id ≠ 0) (hs : sig ≠ .exhausted none) :
+    after sig ({ id := id, delayed := ts } :: st) ⟨s, i⟩ (n + extraAbs id sig)
+      = after (absorb id sig) st ⟨s, i + extraAbs id sig⟩ n := by
+  cases sig with
+  | found => rfl
+  | illScoped => rfl
+  | exhausted co => cases co with
+    | none => exact absurd rfl hs
+    | some c =>
+      by_cases hc : c = id
+      · subst hc
+        simp only [extraAbs, if_true, absorb, after, cutOpt]
+        rw [cutStack_hit c _ st rfl hid]
+        exact step_empty n _ st s i rfl rfl rfl
+      · have : Sig.exhausted (some c) ≠ Sig.exhausted (some id) := by
+          intro h0; injection h0 with h0; injection h0 with h0; exact hc h0
+        simp only [extraAbs, if_neg this, absorb, if_neg hc, Nat.add_zero]
+        exact after_cutsig_skip_exh c _ st _ n (Or.inl (fun h0 => hc h0.symm))
+  | raised e co => cases co with
+    | none =>
+      simp only [extraAbs, absorb, reduceCtorEq, if_false, Nat.add_zero]
+      exact after_raised_skip e _ st _ n rfl
+    | some c =>
+      simp only [extraAbs, reduceCtorEq, if_false, Nat.add_zero]
+      by_cases hc : c = id
+      · subst hc
+        simp only [absorb, if_true, after, cutOpt]
+        rw [cutStack_hit c _ st rfl hid, recoverStack_no_handler sem e (marker c) st _ rfl]
+      · simp only [absorb, if_neg hc]
+        exact after_cutsig_skip_raised e c _ st _ n (Or.inl (fun h0 => hc h0.symm))
+
+/-- a cut executed below an executed cut -/
+theorem cutStack_cutStack (c c' : Nat) (st : List Pr)
+    (hn : (ids st).Nodup) (hc : c ∈ ids st) (hc' : c' ∈ (ids st).dropWhile (· ≠ c)) :
+    cutStack c' (cutStack c st) = cutStack c' st := by
+  have hc0 : c ≠ 0 := fun h0 => zero_not_mem_ids st (h0 ▸ hc)
+  have hc'0 : c' ≠ 0 := fun h0 => zero_not_mem_ids st (h0 ▸ (List.dropWhile_sublist _).subset hc')
+  by_cases h : c' = c
+  · subst h
+    simp only [cutStack, if_neg hc'0, popUntil, marker, if_true]
+  · have h2 : ¬ c = c' := fun h0 => h h0.symm
+    simp only [cutStack, if_neg hc'0, if_neg hc0, popUntil, marker, if_neg h2]
+    rw [popUntil_popUntil c c' st hn hc' h]
+
+/-- the exhausted frame of a cut, sitting on the stack the cut has left -/
+theorem after_cut_pass (c : Nat) (r : Sig) (st : List Pr) (s : St) (i n : Nat)
+    (hn : (ids st).Nodup) (hc : c ∈ ids st) (hin : sigIn r ((ids st).dropWhile (· ≠ c))) :
+    after r ({ } :: cutStack c st) ⟨s, i⟩ (n + extra r) = after (afterCut c r) st ⟨s, i + extra r⟩ n := by
+  rw [after_spent r _ _ s i n rfl rfl rfl rfl rfl]
+  cases r with
+  | found => rfl
+  | illScoped => rfl
+  | exhausted co => cases co with
+    | none => rfl
+    | some c' => simp only [after, cutOpt, afterCut, cutStack_cutStack c c' st hn hc hin]
+  | raised e co => cases co with
+    | none => rfl
+    | some c' => simp only [after, cutOpt, afterCut, cutStack_cutStack c c' st hn hc hin]
+/-! ### the simulation -/
+
+/-- `ForceDfsStatement` at dfs fuel `k` -/
+def StmtD (k : Nat) : Prop :=
+  ∀ (t : PT) (live : List Nat) (s s' : St) (sig : Sig),
+    dfs k t live s = some (sig, s') → sig ≠ .illScoped →
+    ∀ (stack : List Pr), ids stack = live → live.Nodup →
+      ∃ cost di, ∀ n i,
+        force sem none (n + cost) ((evalThunk t ⟨s, i⟩).1 :: stack) (evalThunk t ⟨s, i⟩).2
+          = after sig stack ⟨s', i + di⟩ n
+
+/-- the same for the remaining alternatives `ts` of the delay promise `id` -/
+def StmtA (k : Nat) : Prop :=
+  ∀ (id : Nat) (ts : PTs) (live0 : List Nat) (s s' : St) (sig : Sig),
+    dfsAlts k id ts (id :: live0) s = some (sig, s') → sig ≠ .illScoped →
+    ∀ (stack0 : List Pr), ids stack0 = live0 → (id :: live0).Nodup → id ≠ 0 →
+      ∃ cost di, ∀ n i,
+        force sem none (n + cost) ({ id := id, delayed := ts.toList } :: stack0) ⟨s, i⟩
+          = after sig stack0 ⟨s', i + di⟩ n
+
+theorem afterCut_illScoped {c : Nat} {r : Sig} (h : afterCut c r ≠ .illScoped) : r ≠ .illScoped := by
+  rintro rfl; exact h rfl
+
+theorem absorb_illScoped {id : Nat} {r : Sig} (h : absorb id r ≠ .illScoped) : r ≠ .illScoped := by
+  rintro rfl; exact h rfl
+
+theorem stmtD_succ (k : Nat) (ihD : StmtD k) (ihA : StmtA k) : StmtD (k + 1) := by
+  intro t live s s' sig h hsig stack hlive hnd
+  cases t with
+  | ok =>
+    simp only [dfs, Option.some.injEq, Prod.mk.injEq] at h; obtain ⟨rfl, rfl⟩ := h
+    refine ⟨1, 1, fun n i => ?_⟩
+    simp only [evalThunk]
+    exact step_ok n ({ ok := true } : Pr) stack s i rfl rfl rfl
+  | fail =>
+    simp only [dfs, Option.some.injEq, Prod.mk.injEq] at h; obtain ⟨rfl, rfl⟩ := h
+    refine ⟨1, 1, fun n i => ?_⟩
+    simp only [evalThunk]
+    exact step_empty n ({ } : Pr) stack s i rfl rfl rfl
+  | err e =>
+    simp only [dfs, Option.some.injEq, Prod.mk.injEq] at h; obtain ⟨rfl, rfl⟩ := h
+    refine ⟨1, 1, fun n i => ?_⟩
+    simp only [evalThunk]
+    exact step_err n ({ err := some e } : Pr) e stack s i rfl rfl
+  | log x t =>
+    simp only [dfs] at h
+    obtain ⟨c1, d1, ih⟩ := ihD t live _ s' sig h hsig stack hlive hnd
+    exact ⟨c1, d1, fun n i => by simpa only [evalThunk] using ih n i⟩
+  | set f b t =>
+    simp only [dfs] at h
+    obtain ⟨c1, d1, ih⟩ := ihD t live _ s' sig h hsig stack hlive hnd
+    exact ⟨c1, d1, fun n i => by simpa only [evalThunk] using ih n i⟩
+  | delay id alts =>
+    simp only [dfs] at h
+    split at h
+    · simp only [Option.some.injEq, Prod.mk.injEq] at h; obtain ⟨rfl, rfl⟩ := h
+      exact absurd rfl hsig
+    · rename_i hid
+      have hid0 : id ≠ 0 := fun h0 => hid (Or.inl h0)
+      have hnin : id ∉ live := fun h0 => hid (Or.inr (by simpa using h0))
+      obtain ⟨c1, d1, ih⟩ := ihA id alts live _ s' sig h hsig stack hlive
+        (List.nodup_cons.2 ⟨hnin, hnd⟩) hid0
+      exact ⟨c1, d1, fun n i => by simpa only [evalThunk] using ih n i⟩
+  | cut parent t =>
+    simp only [dfs] at h
+    generalize hcdef : (if s.created.contains parent = true then parent else 0) = c at h
+    split at h
+    · rename_i hc
+      split at h
+      · simp at h
+      · rename_i r s1 h1
+        simp only [Option.some.injEq, Prod.mk.injEq] at h; obtain ⟨rfl, rfl⟩ := h
+        subst hlive
+        have hcm : c ∈ ids stack := by simpa using hc
+        have hin := (sigIn_both k).1 _ _ _ _ _ h1
+        obtain ⟨c1, d1, ih⟩ := ihD t _ s s1 r h1 (afterCut_illScoped hsig) ({ } :: cutStack c stack)
+          (by rw [ids_cons_zero _ _ rfl, ids_cutStack c stack hcm])
+          ((List.dropWhile_sublist _).nodup hnd)
+        refine ⟨extra r + c1 + 1, 1 + d1 + extra r, fun n i => ?_⟩
+        have hev : evalThunk (.cut parent t) ⟨s, i⟩ = ({ delayed := [t], cutParent := some c }, ⟨s, i⟩) := by
+          simp only [evalThunk, hcdef]
+        have e1 : n + (extra r + c1 + 1) = (n + extra r + c1) + 1 := by omega
+        have e2 : i + (1 + d1 + extra r) = i + 1 + d1 + extra r := by omega
+        rw [hev, e1, e2, step_cut, ih, after_cut_pass c r stack s1 _ n hnd hcm hin]
+    · simp only [Option.some.injEq, Prod.mk.injEq] at h; obtain ⟨rfl, rfl⟩ := h
+      exact absurd rfl hsig
+  | catch_ flag hs t =>
+    simp only [dfs] at h
+    have hev : ∀ i, evalThunk (.catch_ flag hs t) ⟨s, i⟩
+        = ({ delayed := [t], recover := some ⟨flag, hs⟩ }, ⟨s, i⟩) := fun i => by simp only [evalThunk]
+    have hids : ids (({ recover := some ⟨flag, hs⟩ } : Pr) :: stack) = live := by
+      rw [ids_cons_zero _ _ rfl, hlive]
+    split at h
+    · simp at h
+    · -- the goal raised an error that still looks for a handler
+      rename_i e s1 h1
+      obtain ⟨c1, d1, ih⟩ := ihD t live s s1 _ h1 (by simp) _ hids hnd
+      have decline : s1.flag flag = false ∨ hs.find e = none → sig = .raised e none → s' = s1 →
+          ∃ cost di, ∀ n i,
+            force sem none (n + cost) ((evalThunk (.catch_ flag hs t) ⟨s, i⟩).1 :: stack)
+                (evalThunk (.catch_ flag hs t) ⟨s, i⟩).2
+              = after sig stack ⟨s', i + di⟩ n := by
+        intro hd hs1 hs2
+        subst hs1 hs2
+        refine ⟨c1 + 1, 1 + d1, fun n i => ?_⟩
+        have e1 : n + (c1 + 1) = (n + c1) + 1 := by omega
+        have e2 : i + (1 + d1) = i + 1 + d1 := by omega
+        rw [hev, e1, e2, step_catch, ih, after_catch_decline e ⟨flag, hs⟩ stack _ n hd]
+      split at h
+      · rename_i hf
+        split at h
+        · rename_i t2 ht2
+          obtain ⟨c2, d2, ih2⟩ := ihD t2 live s1 s' sig h hsig stack hlive hnd
+          refine ⟨c2 + c1 + 1, 1 + d1 + d2, fun n i => ?_⟩
+          have e1 : n + (c2 + c1 + 1) = (n + c2 + c1) + 1 := by omega
+          have e2 : i + (1 + d1 + d2) = i + 1 + d1 + d2 := by omega
+          rw [hev, e1, e2, step_catch, ih,
+            after_catch_accept e ⟨flag, hs⟩ t2 stack _ _ hf ht2, ih2]
+        · rename_i hnone
+          simp only [Option.some.injEq, Prod.mk.injEq] at h
+          exact decline (Or.inr hnone) h.1.symm h.2.symm
+      · rename_i hf
+        simp only [Option.some.injEq, Prod.mk.injEq] at h
+        exact decline (Or.inl (by simpa using hf)) h.1.symm h.2.symm
+    · rename_i r hr h1
+      simp only [Option.some.injEq] at h; subst h
+      obtain ⟨c1, d1, ih⟩ := ihD t live s s' sig h1 hsig _ hids hnd
+      refine ⟨extra sig + c1 + 1, 1 + d1 + extra sig, fun n i => ?_⟩
+      have e1 : n + (extra sig + c1 + 1) = (n + extra sig + c1) + 1 := by omega
+      have e2 : i + (1 + d1 + extra sig) = i + 1 + d1 + extra sig := by omega
+      rw [hev, e1, e2, step_catch, ih, after_catch_pass sig ⟨flag, hs⟩ stack s' _ n
+        (fun e he => hr e s' (by rw [he]))]
+  | rep t =>
+    simp only [dfs] at h
+    have hev : ∀ s i, evalThunk (.rep t) ⟨s, i⟩
+        = ({ delayed := [t], rep := true }, ⟨s, i⟩) := fun s i => by simp only [evalThunk]
+    have hids : ids (({ delayed := [t], rep := true } : Pr) :: stack) = live := by
+      rw [ids_cons_zero _ _ rfl, hlive]
+    split at h
+    · simp at h
+    · rename_i s1 h1
+      obtain ⟨c1, d1, ih⟩ := ihD t live s s1 _ h1 (by simp) _ hids hnd
+      obtain ⟨c2, d2, ih2⟩ := ihD (.rep t) live s1 s' sig h hsig stack hlive hnd
+      refine ⟨c2 + c1 + 1, 1 + d1 + d2, fun n i => ?_⟩
+      have e1 : n + (c2 + c1 + 1) = (n + c2 + c1) + 1 := by omega
+      have e2 : i + (1 + d1 + d2) = i + 1 + d1 + d2 := by omega
+      have := ih2 n (i + 1 + d1)
+      rw [hev] at this
+      rw [hev, e1, e2, step_rep, ih]
+      exact this
+    · rename_i r hr h1
+      simp only [Option.some.injEq] at h; subst h
+      obtain ⟨c1, d1, ih⟩ := ihD t live s s' sig h1 hsig _ hids hnd
+      refine ⟨c1 + 1, 1 + d1, fun n i => ?_⟩
+      have e1 : n + (c1 + 1) = (n + c1) + 1 := by omega
+      have e2 : i + (1 + d1) = i + 1 + d1 := by omega
+      rw [hev, e1, e2, step_rep, ih, after_transparent sig _ stack _ n rfl rfl
+        (fun he => hr s' (by rw [he]))]
+
+theorem stmtA_succ (k : Nat) (ihD : StmtD k) (ihA : StmtA k) : StmtA (k + 1) := by
+  intro id ts live0 s s' sig h hsig stack0 hlive hnd hid
+  cases ts with
+  | nil =>
+    simp only [dfsAlts, Option.some.injEq, Prod.mk.injEq] at h; obtain ⟨rfl, rfl⟩ := h
+    refine ⟨1, 1, fun n i => ?_⟩
+    exact step_empty n ({ id := id, delayed := [] } : Pr) stack0 s i rfl rfl rfl
+  | cons t ts =>
+    simp only [dfsAlts] at h
+    have hids : ids (({ id := id, delayed := ts.toList } : Pr) :: stack0) = id :: live0 := by
+      rw [ids_cons_pos _ _ hid, hlive]
+    split at h
+    · simp at h
+    · rename_i s1 h1
+      obtain ⟨c1, d1, ih⟩ := ihD t _ s s1 _ h1 (by simp) _ hids hnd
+      obtain ⟨c2, d2, ih2⟩ := ihA id ts live0 s1 s' sig h hsig stack0 hlive hnd hid
+      refine ⟨c2 + c1 + 1, 1 + d1 + d2, fun n i => ?_⟩
+      have e1 : n + (c2 + c1 + 1) = (n + c2 + c1) + 1 := by omega
+      have e2 : i + (1 + d1 + d2) = i + 1 + d1 + d2 := by omega
+      simp only [PTs.toList]
+      rw [e1, e2, step_alts, ih]
+      exact ih2 n (i + 1 + d1)
+    · rename_i r s1 hr h1
+      simp only [Option.some.injEq, Prod.mk.injEq] at h; obtain ⟨rfl, rfl⟩ := h
+      obtain ⟨c1, d1, ih⟩ := ihD t _ s s1 r h1 (absorb_illScoped hsig) _ hids hnd
+      refine ⟨extraAbs id r + c1 + 1, 1 + d1 + extraAbs id r, fun n i => ?_⟩
+      have e1 : n + (extraAbs id r + c1 + 1) = (n + extraAbs id r + c1) + 1 := by omega
+      have e2 : i + (1 + d1 + extraAbs id r) = i + 1 + d1 + extraAbs id r := by omega
+      simp only [PTs.toList]
+      rw [e1, e2, step_alts, ih, after_delay_pass id ts.toList r stack0 s1 _ n hid hr]
+
+theorem stmt_both : ∀ k : Nat, StmtD k ∧ StmtA k
+  | 0 => ⟨fun _ _ _ _ _ h => by simp [dfs] at h, fun _ _ _ _ _ _ h => by simp [dfsAlts] at h⟩
+  | k + 1 => ⟨stmtD_succ k (stmt_both k).1 (stmt_both k).2, stmtA_succ k (stmt_both k).1 (stmt_both k).2⟩
+
+/-- **force_dfs**: the trampoline finds exactly what the recursive reference search finds -/
+theorem force_dfs : ForceDfsStatement :=
+  fun k t live s s' sig h hsig stack hlive hnd => (stmt_both k).1 t live s s' sig h hsig stack hlive hnd
+
+/-- the same for the alternatives of a delay promise that is already on the stack -/
+theorem force_dfsAlts (k : Nat) : StmtA k := (stmt_both k).2
 end PrologVerif.ForceDFS
